@@ -200,10 +200,27 @@ def _rank_model(d):
     return matrix_rank
 
 
+def _cond_model(d):
+    """2-norm condition number of a symmetric PSD matrix: 1 for d=1 (inf if zero), lambda_max/lambda_min for d=2."""
+    def cond(M):
+        M = np.asarray(M, dtype=object)
+        if d == 1:
+            return float("inf") if bool(SymReal.lift(M[0, 0]) == 0) else 1.0
+        t = SymReal.lift(M[0, 0]) + M[1, 1]
+        det = det_small(M)
+        disc = (t * t - det * 4)
+        s = disc.sqrt()
+        if bool(t - s == 0):
+            return float("inf")
+        return (t + s) / (t - s)
+    return cond
+
+
 def run_vv(x, w, d):
     proxy = NpProxy(object_constructors=True, overrides={})
     la = type("LA", (), {})()
     la.matrix_rank = _rank_model(d)
+    la.cond = _cond_model(d)
     la.inv = inv_small
     la.LinAlgError = np.linalg.LinAlgError
     proxy._over["linalg"] = la
@@ -211,7 +228,7 @@ def run_vv(x, w, d):
         return tools.volume_variation(x, w)
 
 
-def make_vv(d, n, kind, wgrid=None):
+def make_vv(d, n, kind, wgrid=None, Agrid=None):
     """kind: 'nonneg' | 'affine' | 'wscale'; wgrid: concrete weights (value grid) instead of symbolic ones"""
 
     def harness(ctx: PathCtx):
@@ -235,6 +252,10 @@ def make_vv(d, n, kind, wgrid=None):
                 ctx.assume(a.n != 0)
                 b = real(ctx, "b")
                 ys = [[a * xs[i][0] + b] for i in range(n)]
+            elif Agrid is not None:
+                A = [[SymReal.const(Fraction(Agrid[r][c])) for c in range(d)] for r in range(d)]
+                bb = [real(ctx, f"b{r}") for r in range(d)]
+                ys = [[_sum([A[r][c] * xs[i][c] for c in range(d)]) + bb[r] for r in range(d)] for i in range(n)]
             else:
                 A = [[real(ctx, f"A{r}{c}") for c in range(d)] for r in range(d)]
                 detA = A[0][0] * A[1][1] - A[0][1] * A[1][0]
@@ -264,6 +285,9 @@ def make_vv(d, n, kind, wgrid=None):
         elif label == "affine-invariant":
             if d == 1:
                 y = float(m["a"]) * x + float(m["b"])
+            elif Agrid is not None:
+                A = np.array(Agrid, dtype=float)
+                y = x @ A.T + np.array([float(m.get(f"b{r}", 0.0)) for r in range(d)])
             else:
                 A = np.array([[float(m[f"A{r}{c}"]) for c in range(d)] for r in range(d)])
                 y = x @ A.T + np.array([float(m[f"b{r}"]) for r in range(d)])
@@ -273,7 +297,7 @@ def make_vv(d, n, kind, wgrid=None):
         return {"reproduced": bool(bad), "signature": f"volume_variation:{label}:d{d}", "payload": {"x": x.tolist(), "w": w.tolist()},
                 "what": what}
 
-    return Obligation(f"vv-{kind}-d{d}-n{n}" + ("" if wgrid is None else "-w" + "_".join(map(str, wgrid))), harness,
+    return Obligation(f"vv-{kind}-d{d}-n{n}" + ("" if wgrid is None else "-w" + "_".join(map(str, wgrid))) + ("" if Agrid is None else "-Agrid"), harness,
                       replay=replay, encodes=[tools.volume_variation],
                       bounds=f"d={d}, n={n} samples, " + ("symbolic positive weights" if wgrid is None else f"weights on the grid point {wgrid}") + "; full-rank and regularised branches by forking on det==0; clip branches by forking",
                       stubs=["np.linalg.matrix_rank -> det==0 model", "np.linalg.inv -> closed form (d<=2)",
@@ -285,9 +309,11 @@ def obligations(tier):
            make_trim(2, 2, "9/10"), make_trim(3, 3, "9/10"), make_trim(3, 2, "1/2"),
            make_vv(1, 2, "nonneg"), make_vv(1, 2, "affine"), make_vv(1, 2, "wscale"),
            make_vv(1, 3, "affine", wgrid=(1, 1, 1)), make_vv(1, 3, "affine", wgrid=(1, 2, 5)), make_vv(1, 3, "wscale", wgrid=(3, 1, 2))]
+    # d=2 affine invariance (symbolic or ill-conditioned concrete A) is undecided by nlsat within the budget (unknown at 10 s/query):
+    # not scheduled in the quick tier
     if tier == "thorough":
         obs += [make_ess(4), make_compute_ess(4), make_trim(4, 3, "9/10"), make_trim(3, 4, "99/100"), make_trim(4, 4, "1/2"),
                 make_vv(1, 3, "nonneg"), make_vv(1, 4, "affine", wgrid=(1, 1, 1, 1)), make_vv(1, 4, "wscale", wgrid=(1, 2, 3, 4)),
                 make_vv(2, 3, "nonneg", wgrid=(1, 1, 1)), make_vv(2, 3, "wscale", wgrid=(1, 2, 3)),
-                make_vv(2, 3, "affine", wgrid=(1, 1, 1))]
+                make_vv(2, 3, "affine", wgrid=(1, 2, 3), Agrid=((3, 1), (-2, 10 ** 4)))]
     return obs
